@@ -195,6 +195,15 @@ def run_kani_engine(prop, spec, tier):
             if only_unwind:
                 ko.undecided.append("kani: harness %s: unwinding assertion failed (bound too small for this tree) -- not a verdict" % name)
                 continue
+            # ask CBMC for concrete values of this failing harness (one extra run, only on failure)
+            if r["playback"] is None:
+                pcmd = base + ["-Z", "concrete-playback", "--concrete-playback=print", "--default-unwind",
+                               str(h.unwind if h.unwind is not None else default_unwind), "--output-format", "regular", "--harness", name] + list(h.extra)
+                prc, pout, _ = _run(pcmd, extract.REPO, h.timeout + 600, env)
+                for bname, btxt in parse_harness_blocks(pout).items():
+                    ra = analyse_block(btxt)
+                    if ra["playback"]:
+                        r["playback"], r["concrete"] = ra["playback"], ra["concrete"]
             for c in fcs or [{"description": "verification failed", "file": "", "line": 0, "function": ""}]:
                 if "unwinding assertion" in c["description"]:
                     continue
